@@ -77,7 +77,7 @@ def gen_case(rng, i):
     cwdmode = rng.choice(["cfgdir", "cfgdir", "subdir", "other-flag", "other-env"])
     g = G(rng, cwdmode == "cfgdir")
     exported = rng.random() < 0.7
-    iname = rng.choice(["Store", "Reader", "HTTPDoer", "Worker", "UserService", "Catalogue", "Uri", "Utf8"]) if exported else rng.choice(["store", "reader", "httpDoer", "cacheService", "url", "uri"])
+    iname = rng.choice(["Store", "Reader", "HTTPDoer", "Worker", "UserService", "Catalogue", "Uri", "Utf8"]) if exported else rng.choice(["store", "reader", "httpDoer", "cacheService", "url", "uri", "_Hidden", "_plain", "élan"])
     exprs = {}
     kind = rng.choice(["plain", "plain", "chain", "deep", "selfref", "schema", "defaults"])
     if kind != "defaults":
@@ -130,6 +130,10 @@ FIXED = [
     KF_IDR,
     {"kind": "expr", "i": -6, "layout": "initialism", "cwd": "cfgdir", "cfgname": ".mockery.yml", "iface": "Uri", "what": "initialisms", "srcfile": "iface.go", "linedir": None,
      "exprs": {"structname": "M{{ .InterfaceName | exported }}{{ \"utf8\" | exported }}{{ \"id\" | exported }}", "dir": "out/{{ .SrcPackageName | exported }}", "filename": "m.go", "pkgname": "m"}},
+    {"kind": "expr", "i": -7, "layout": "nested", "cwd": "cfgdir", "cfgname": ".mockery.yml", "iface": "_Hidden", "what": "mock-by-exportedness", "srcfile": "iface.go", "linedir": None,
+     "exprs": {"structname": "{{.Mock}}{{.InterfaceName}}", "dir": "out/{{.Mock}}", "filename": "{{.Mock}}_x.go", "pkgname": "m"}},
+    {"kind": "expr", "i": -8, "layout": "sub", "cwd": "cfgdir", "cfgname": ".mockery.yml", "iface": "élan", "what": "mock-by-exportedness", "srcfile": "iface.go", "linedir": None,
+     "exprs": {"structname": "{{.Mock}}X", "dir": "out", "filename": "{{.Mock}}_y.go", "pkgname": "m"}},
     {"kind": "expr", "i": -4, "layout": "nested", "cwd": "cfgdir", "cfgname": ".mockery.yml", "iface": "UserService", "what": "file-and-suffix", "srcfile": "catalog.go", "linedir": None,
      "exprs": {"structname": "M{{ .InterfaceName | trimSuffix \"Service\" }}", "dir": "{{.InterfaceFile | dir}}/m", "filename": "{{ .InterfaceFile | base | trimSuffix \".go\" }}_mock.go", "pkgname": "m"}},
     {"kind": "expr", "i": -5, "layout": "sub", "cwd": "cfgdir", "cfgname": ".mockery.yml", "iface": "Store", "what": "line-directive", "srcfile": "billing.go", "linedir": "gen/grammar.y:9",
